@@ -47,6 +47,16 @@ def hostile_files(r):
         out.append(('fixed-size-schema', hdr('{"type":"fixed","name":"F","size":%d}' % n) + varint(1) + varint(1) + b'x' + marker))
         for codec in ('snappy', 'deflate', 'bzip2', 'xz', 'zstandard'):
             out.append(('codec-garbage', hdr('"int"', codec) + varint(1) + varint(6) + varint(n)[:6].ljust(6, b'\x00') + marker))
+    # hostile framing in a LATER block, after a well-formed block has been consumed (state carried between blocks)
+    good = varint(3) + varint(3) + b'\x02\x04\x06' + marker
+    for name, blk in [('later-size-zero-count-1', varint(1) + varint(0) + marker), ('later-size-zero-count-2', varint(2) + varint(0) + marker),
+                      ('later-size-short', varint(3) + varint(1) + b'\x02' + marker), ('later-count-huge', varint(1 << 40) + varint(1) + b'\x02' + marker),
+                      ('later-size-huge', varint(1) + varint(1 << 40) + b'\x02' + marker), ('later-neg-count', varint(-2) + varint(1) + b'\x02' + marker),
+                      ('later-neg-size', varint(1) + varint(-1) + b'\x02' + marker), ('later-count-zero', varint(0) + varint(0) + marker + varint(1) + varint(1) + b'\x02' + marker),
+                      ('later-truncated', varint(2) + varint(2) + b'\x02')]:
+        out.append((name, hdr('"int"') + good + blk))
+        out.append((name + '-twice', hdr('"int"') + good + good + blk + good))
+        out.append((name + '-string', hdr('"string"') + varint(1) + varint(3) + b'\x04hi' + marker + blk))
     out.append(('deep-schema', hdr('{"type":"array","items":' * 200 + '"int"' + '}' * 200) + varint(1) + varint(1) + b'\x00' + marker))
     out.append(('codec-unknown', hdr('"int"', 'lzo')))
     out.append(('codec-level-empty', b'Obj\x01' + varint(3) + b''.join(varint(len(a)) + a + varint(len(b)) + b for a, b in
